@@ -87,6 +87,10 @@ def audit(prop: str, force: bool = False, leanchecker: bool = False) -> dict:
     if leanchecker and ob["modules"]:
         r = subprocess.run(["lake", "env", "leanchecker"] + ob["modules"], cwd=LEAN, capture_output=True, text=True)
         res["leanchecker"] = {"rc": r.returncode, "tail": (r.stdout + r.stderr)[-500:]}
+    if res.get("leanchecker") and res["leanchecker"]["rc"] != 0:
+        for t in res["theorems"]:
+            t["ok"] = False
+            t["why"] = "leanchecker rejected the module"
     res["obligations"] = len(names)
     res["discharged"] = sum(1 for t in res["theorems"] if t["ok"]) if not hits else 0
     cache.write_text(json.dumps(res, indent=1))
